@@ -1760,6 +1760,27 @@ func (in *Interp) builtin(st *State, name string, args []AV, ins *ssa.Call) ([]A
 		st.Events = append(st.Events, Event{Kind: "call", Note: "builtin " + name, Callee: Sym{Name: "builtin:" + name}, Args: args, Pos: ins.Pos(), Stack: st.stackString()})
 		return []AV{Top{name}}, true
 	case "delete", "close", "clear":
+		// delete(m, k) on a map made on this path whose contents are known: the entry with that key goes
+		if name == "delete" && len(args) == 2 {
+			if mo := st.Obj(args[0]); mo != nil && mo.Kind == 'm' && mo.Opaque == "" {
+				var keys []AV
+				vals := map[string]AV{}
+				for i, k := range mo.Elems {
+					eq, known := sameValue(args[1], k)
+					if !known {
+						mo.Opaque = "map with keys of unknown equality"
+						break
+					}
+					if !eq {
+						vals[fmt.Sprint(len(keys))] = mo.Fields[fmt.Sprint(i)]
+						keys = append(keys, k)
+					}
+				}
+				if mo.Opaque == "" {
+					mo.Elems, mo.Fields = keys, vals
+				}
+			}
+		}
 		st.Events = append(st.Events, Event{Kind: "call", Note: "builtin " + name, Callee: Sym{Name: "builtin:" + name}, Args: args, Pos: ins.Pos(), Stack: st.stackString()})
 		return []AV{Top{name}}, true
 	case "recover":
